@@ -63,8 +63,7 @@ CHECK = {'pkgs': ['core/sigagg'],
          'validators per call, relation to the earlier calls, fault methods/modes, first/inner/last position of the corrupt validator, published/rejected pattern)',
  'budget_s': {'quick': 100, 'thorough': 1500}}
 CHECK["assumptions"] = ENUMX_ASSUME + [
-    "a size-4 list with one corrupted partial still contains 3 valid distinct agreeing shares: publishing a valid aggregate for it is "
-    "treated as legal (only the safety half of the statement is demanded there; set VERIF_C09_STRICT=1 for the literal reading)",
+    "a list longer than the threshold that contains one corrupted partial must be refused as a whole although a threshold of valid shares is in it (literal reading of the statement; VERIF_C09_STRICT=0 relaxes this to the safety half)",
     "payload values other than slot/epoch fields are random per process (oracle is a relation holding for any value); slot/epoch fields are "
     "pinned so that the correct epoch and every decoy epoch fall into different forks of the mock's schedule",
     "sequences: every call of an instance uses the same core.Duty key (slot 1, the type's duty) - the strongest aliasing a per-duty state could see; "
